@@ -88,6 +88,16 @@ def make_case(seed, index, tier):
     return {'seed': seed, 'index': index, 'tier': tier, 'scenario': spec}
 
 
+class SameError(KeyError):
+    """failures of the activities: all compare equal (value semantics, like a dataclass
+    exception) - every failing activity is still reported"""
+    def __eq__(self, other):
+        return isinstance(other, SameError)
+
+    def __hash__(self):
+        return 11
+
+
 class Checker:
     def __init__(self, arena, spec):
         self.arena = arena
@@ -130,7 +140,7 @@ def build_for(case):
                         return await victims[number]
                     if act['fail']:
                         arena.log(name, 'raise')
-                        raise KeyError(name)
+                        raise SameError(name)
                     arena.log(name, 'done')
                     return act['value']
                 except GeneratorExit:
